@@ -179,6 +179,48 @@ fn ids_unit(depth: usize) -> Unit {
     seq_unit(c)
 }
 
+/// 65536+ topic creations in one server lifetime: the part of a message id that identifies the topic does not wrap.
+fn many_topics_unit() -> Unit {
+    let f: ScenFn = scen!(|cx| {
+        let n = [300usize, 65_536 + 2][cx.choose("topic-creations", 2)];
+        let a = cx.api.clone();
+        must!(cx, "setup:create-topic", { let a = a.clone(); async move { a.create_topic(T0).await } });
+        let early = must!(cx, "setup:publish", { let a = a.clone(); async move { a.publish(T0, vec![(b"early".to_vec(), vec![])]).await } });
+        let mut seen: std::collections::BTreeSet<String> = early.iter().cloned().collect();
+        // create + delete many throw-away topics; every 4096th keeps a message id for the comparison
+        let a2 = a.clone();
+        let ids = tryv!(cx.settle("client:churn", async move {
+            let mut ids = vec![];
+            for i in 0..n {
+                let name = "projects/p/topics/churn";
+                if a2.create_topic(name).await.is_err() { return Err(format!("create #{} failed", i)); }
+                if i % 4096 == 0 || i + 3 > n {
+                    match a2.publish(name, vec![(b"x".to_vec(), vec![])]).await { Ok(v) => ids.extend(v), Err(c) => return Err(format!("publish #{}: {:?}", i, c)) }
+                }
+                if a2.delete_topic(name).await.is_err() { return Err(format!("delete #{} failed", i)); }
+            }
+            Ok(ids)
+        }).await);
+        let ids = match ids { Ok(v) => v, Err(e) => return ScenarioOut::viol("many-topics/churn-failed", e) };
+        for id in ids {
+            if !seen.insert(id.clone()) {
+                return ScenarioOut::viol("many-topics/duplicate-message-id", format!("after up to {} topic creations message id {} was issued a second time", n, id));
+            }
+        }
+        must!(cx, "client:create-topic", { let a = a.clone(); async move { a.create_topic(T1).await } });
+        for t in [T0, T1] {
+            let r = must!(cx, "client:publish", { let a = a.clone(); async move { a.publish(t, vec![(b"late".to_vec(), vec![])]).await } });
+            for id in r {
+                if !seen.insert(id.clone()) {
+                    return ScenarioOut::viol("many-topics/duplicate-message-id", format!("after {} topic creations message id {} (topic {}) was issued a second time", n, id, t));
+                }
+            }
+        }
+        ScenarioOut { sample: Some(format!("{} creations", n)), ..ScenarioOut::ok(format!("n={}", n)) }
+    });
+    explore_unit("input/many-topics", "300 and 65538 create/delete cycles of topics in one server lifetime with publishes along the way: all message ids distinct", Bounds::new(0), ExecCfg { points_on: false, max_steps: 5_000_000, ..Default::default() }, f)
+}
+
 /// Topics created / re-created concurrently: ids stay globally unique.
 fn concurrent_ids_unit(name: &'static str, progs: Vec<Vec<crate::litmus::COp>>, pre: bool, d: usize) -> Unit {
     use crate::litmus::*;
@@ -273,6 +315,7 @@ pub fn units(thorough: bool) -> Vec<Unit> {
     vec![
         integrity_unit(),
         client_fields_unit(),
+        many_topics_unit(),
         ids_unit(if thorough { 9 } else { 6 }),
         concurrent_ids_unit("create‖create;publish", vec![vec![CreateTopic(T0), Publish(T0, 2)], vec![CreateTopic(T1), Publish(T1, 2)]], false, d),
         concurrent_ids_unit("delete;create‖create;publish", vec![vec![DeleteTopic(T0), CreateTopic(T0), Publish(T0, 1)], vec![CreateTopic(T1), Publish(T1, 1)], vec![Publish(T0, 1)]], true, d),
